@@ -51,6 +51,10 @@ def expression_programs(rng):
           A.FocusedSeq("v", A.Renamed("wide", A.Rebuild(A.Flag, A.Bin(">", A.T("v"), A.C(100)))), A.Renamed("v", A.IfThenElse(A.T("wide"), A.Alias("Int16ub"), A.Alias("Byte")))),
           A.FocusedSeq("n", A.Const(b"\x01"), A.Renamed("n", A.Alias("Byte")), A.Padding(A.Bin("&", A.T("n"), A.C(3)))),
           A.FocusedSeq("items", A.Renamed("twice", A.Rebuild(A.Alias("Byte"), A.Bin("*", A.C(2), A.Func("len", A.T("items"))))), A.Renamed("items", A.Array(A.Bin("//", A.T("twice"), A.C(2)), A.Alias("Byte"))), A.Padding(1))]
+    # several padding / alignment members with different fill patterns in one construct (generated helpers are shared by name)
+    out.append(A.Struct(A.Renamed("name", A.Padded(6, A.Bytes(2), pat=0x20)), A.Renamed("kind", A.Alias("Byte")), A.Padding(3), A.Renamed("size", A.Padded(A.Bin("+", A.Bin("&", A.T("kind"), A.C(3)), A.C(2)), A.Alias("Int16ub"), pat=0xee)), A.Padding(2, pat=0x11), A.Renamed("t", A.Tell)))
+    out.append(A.Struct(A.Renamed("a", A.Aligned(4, A.Alias("Byte"), pat=0xaa)), A.Renamed("b", A.Aligned(4, A.Alias("Byte"))), A.Renamed("c", A.Aligned(3, A.Alias("Int16ub"), pat=0x55)), A.Renamed("d", A.Padded(3, A.Alias("Byte"), pat=0x7f))))
+    out.append(A.Sequence(A.Padded(3, A.Alias("Byte"), pat=0x01), A.Padded(3, A.Alias("Byte"), pat=0x02), A.Padded(3, A.Alias("Byte")), A.AlignedStruct(2, A.Renamed("x", A.Alias("Byte")), A.Renamed("y", A.Alias("Byte")))))
     for f in fs:
         out.append(f)
         out.append(A.Struct(A.Renamed("h", A.Alias("Byte")), A.Renamed("x", f), A.Renamed("t", A.Tell)))
